@@ -52,17 +52,11 @@ def lexOutSexp : Option (List Token) → Sexp
   | some ts => .list (.atom "ok" :: ts.map tokenSexp)
   | none => .list [.atom "err"]
 
-/-- Known finding `lexical-debug-assert-dot-underscore`: with debug assertions on (the harness profile,
-`cargo test`), lexical-util panics inside its many-digits re-parse when a fraction begins with `_`
-(`1._0000000000000000001`).  Narrow classifier: the implementation's output is `(crash msg)`, the message
-is that assertion, and the text contains `._`.  The lexer model does not model this panic. -/
-def isLexicalAssertCrash (text : String) (out : Sexp) : Bool :=
+/-- the implementation panicked (`(crash "message")`): never acceptable for a lexer / parser -/
+def isCrash (out : Sexp) : Bool :=
   match out with
-  | .list [.atom "crash", .str msg] =>
-    (msg.splitOn "digit_separator").length > 1 && (text.splitOn "._").length > 1
+  | .list [.atom "crash", .str _] => true
   | _ => false
-
-def kfLexicalAssert : String := "kf:lexical-debug-assert-dot-underscore"
 
 /-- Handler for a `(lex "text")` case whose implementation output is `(ok tok…)` / `(err)`:
 full token list (or error) compared with the model's.  `nontriv` decides non-triviality from the
@@ -74,8 +68,8 @@ def handleLex (text : String) (out : Sexp) (nontriv : String → Option (List To
   let kinds := match m with
     | some ts => (ts.map tokenKind).eraseDups.map (fun k => s!"tok-{k}")
     | none => ["lex-err"]
-  if isLexicalAssertCrash text out then
-    { agree := false, specOk := false, nontrivial := true, tags := ["lex", "crash", kfLexicalAssert],
+  if isCrash out then
+    { agree := false, specOk := false, nontrivial := true, tags := ["lex", "crash"],
       detail := s!"the lexer panicked: text={repr text} model={mOut} impl={out}" }
   else
   { agree := mOut == out, specOk := true, nontrivial := nontriv text m,
